@@ -192,14 +192,15 @@ CLAIMED["C20"] = dict(
     design="5 C20")
 CLAIMED["C15"] = dict(
     text="Proof about the kernels' own TEXT: tools/py2jit.py regenerates coq/Gen/Kernels.v (all 17 numba routines as terms of a deep-embedded kernel language) from /repo on every run; "
-         "for 15 of them a theorem k_<name>_safe states that the checked interpreter (every array access bounds-checked, every variable read checked for assignment) never reports an "
-         "error, for ALL array sizes and contents satisfying the public-call precondition and all fuel, via a weakest-precondition calculus proved sound once (wp_sound, run_sound) "
-         "and hand-written loop invariants. PARTIAL: _overlap_split (float bound on its output buffer) and _jitperievent_trigger_average are translated and executed four ways but not "
-         "(yet) proved - named in evidence.checked_not_proved. The public-call preconditions are length relations the wrappers guarantee (bin_size > 0 is validated by count/bin_average "
-         "since the repair). Determinism / compiled = interpreted: compiled, bounds-checked compiled, .py_func and the translated term agree on every generated case.",
-    note="Trusted: Coq kernel; the translator (fail-closed; mistranslation shows as a four-way disagreement); Jit/Interp.v's semantics of the NumPy intrinsics, floats as exact "
-         "rationals + NaN, lenient typing; the preconditions read off the wrappers by hand and exercised by 28 degenerate public calls under NUMBA_BOUNDSCHECK=1 (own numba cache); "
-         "numba's compilation itself.",
+         "for EVERY one of the 17 a theorem k_<name>_safe states that the checked interpreter (every array access bounds-checked, every variable read checked for assignment) never "
+         "reports an error, for ALL array sizes and contents satisfying the public-call precondition and all fuel, via a weakest-precondition calculus proved sound once (wp_sound, "
+         "run_sound) and hand-written loop invariants. The preconditions are length relations the wrappers guarantee (positivity of bin_size / interval_size is validated by the callers "
+         "since the repairs; making them explicit exposed four genuine defects, all repaired; refutation witnesses kept in Inv/Findings.v). Determinism / compiled = interpreted: compiled, "
+         "bounds-checked compiled, .py_func and the translated term agree on every generated case. For jitrestrict the translated text is moreover proved to COMPUTE the functional model "
+         "of C03 (C03_kernel_text_computes_model).",
+    note="Trusted: Coq kernel; the translator (fail-closed; a mistranslation shows as a four-way disagreement); Jit/Interp.v's semantics of the NumPy intrinsics, floats as exact "
+         "rationals + NaN (so float64 rounding of _overlap_split's buffer bound N is not covered; the kernel's N + 1 slack absorbs it), lenient typing, trailing data axes collapsed; "
+         "the preconditions read off the wrappers by hand and exercised by 28 degenerate public calls under NUMBA_BOUNDSCHECK=1 (own numba cache); numba's compilation itself.",
     technique="source-to-Coq translator + deep embedding + proved-sound safety wp calculus with loop invariants; four-way execution correspondence",
     design="5 C15 / 10.6")
 REASON_TODO = "C15: the translator + safety-calculus development (DESIGN.md 5 C15 / 10.6) is still being completed; not claimed until its check runs clean"
